@@ -45,7 +45,8 @@ LEVEL_TEXT = (
     "tables pinned in Model/StepsSource.lean (C11_source_transcription links them to the model); after a broken obligation "
     "the failing-input search runs a panel of exactly the classes / solver kinds whose rows differ. compute_rhs() and lhs_op of "
     "the linear-system x-solvers are compared with the documented normal equations on every ADMM case; losses built with * and / "
-    "are part of every stream."
+    "are part of every stream. Default precision: a worker without jax_enable_x64 steps float32 / complex64 instances of all classes "
+    "(no raise, state stays 32-bit of the right kind, post-state and residual accessors equal the model at 5e-4 / 1e-3)."
 )
 LEVEL_NOTE = (
     "Trusted: Lean kernel + Mathlib (axioms propext, Classical.choice, Quot.sound); real-number idealisation (the model runs "
@@ -562,6 +563,21 @@ def _bb_ill_conditioned(b):
 
 
 def run_case(ctx, model, recipe, k, rng, accessors=True, tag="gen"):
+    """`_run_case`, with an exception raised INSIDE the library for this recipe (constructor, step(), accessor of a conforming or
+    edge instance the model accepts) reported as a failing input instead of ending the run as an infrastructure error"""
+    try:
+        return _run_case(ctx, model, recipe, k, rng, accessors, tag)
+    except (Infra, ModelErr):
+        raise
+    except Exception as e:  # noqa: BLE001
+        if not G.raised_in_library(e):
+            raise
+        fail = {"class": recipe["alg"], "recipe": recipe, "steps": k, "raised": f"{type(e).__name__}: {e}"[:400]}
+        ctx.disagree(f"steps.{recipe['alg']}.raises", {"recipe": recipe, "k": k}, fail["raised"], "evaluates", oracle=lambda c: fail)
+        return False
+
+
+def _run_case(ctx, model, recipe, k, rng, accessors=True, tag="gen"):
     a = recipe["alg"]
     try:
         b = G.Built(recipe)
@@ -779,10 +795,106 @@ def check_constructors(ctx, model):
                 ctx.disagree(f"steps.{alg}.init_checked", {"has_prox": hp}, list(impl), list(mod))
 
 
+F32_RTOL = 5e-4  # float32 unit round-off 6e-8, amplified by the x-solves / operator norms of the generated instances
+
+
+def default_precision(ctx, model):
+    """the library's DEFAULT mode (no jax_enable_x64: float32 / complex64, Python scalars weakly typed): a worker subprocess
+    builds valid recipes of all classes (real / complex, 1-d / 2-d / block variables, every sub-problem solver kind, starts partly
+    omitted), performs one step() and calls the residual accessors / objective.  Required: nothing raises, every public state
+    array is 32-bit of the right kind before and after the step, and the post-state / accessors equal the model's (binary64)
+    documented step from the same constructor state at float32 tolerance.  A value disagreement goes through the property oracle
+    (documented equations evaluated in binary64 on the optimiser's own objects) before it is reported."""
+    rng = np.random.Generator(np.random.PCG64(ctx.seed + 3203))
+    per = 4 if ctx.thorough else 2
+    recipes = []
+    for alg in G.ALGS:
+        for j in range(per):
+            r = G.gen_recipe(rng, alg, edge=False)
+            if j % 2 == 1:
+                # arguments omitted: the constructors' own default starts (dtype taken from the operators), complex data preferred
+                for _ in range(8):
+                    if r.get("cplx") or alg in ("nlpadmm",):
+                        break
+                    r = G.gen_recipe(rng, alg, edge=False)
+                for k0 in ("x0", "z0", "u0"):
+                    if k0 in r and alg not in ("pgm", "apgm"):
+                        r[k0] = None
+            recipes.append(r)
+    for kind in ("matrix", "circ", "linear", "generic", "fblock", "g0block"):
+        for _ in range(200):
+            r = G.gen_recipe(rng, "admm", edge=False)
+            if r.get("solver") == kind:
+                recipes.append(r)
+                break
+    res = G.run_f32_worker([{"recipe": r, "pre": None} for r in recipes])
+    for recipe, rec in zip(recipes, res):
+        a = recipe["alg"]
+        key = G.describe(recipe)
+        ctx.case({"default_precision": key}, ("f32", key, json.dumps(recipe, sort_keys=True)[:200]), sample_every=6)
+        ctx.count(f"default-precision:{a}" + (":complex64" if recipe.get("cplx") else ":float32")
+                  + (":block" if G.is_block(recipe["xshape"]) else ""))
+        mode = "float32 / complex64 (jax_enable_x64 off)"
+        if rec.get("raised") or rec.get("bad_dtypes"):
+            fail = {"class": a, "recipe": recipe, "mode": mode, "raised": rec.get("raised"), "state_dtypes_not_32bit": rec.get("bad_dtypes"),
+                    "dtypes": rec.get("dtypes")}
+            known = None
+            if a == "nlpadmm" and not recipe["fast"] and str(rec.get("raised", "")).startswith("dual: TypeError"):
+                known = "nlpadmm-dual-residual-tuple"
+            ctx.disagree(f"steps.{a}.default_precision", {"recipe": recipe, "mode": mode}, {k: fail[k] for k in ("raised", "state_dtypes_not_32bit")},
+                         "step() and accessors evaluate; state stays 32-bit", oracle=lambda c, fail=fail: fail, known_id=known)
+            continue
+        nonbase = a in ("pgm", "apgm") and recipe["pol"]["kind"] != "base"
+        if nonbase or (a == "admm" and recipe.get("solver") == "generic"):
+            # adaptive step-size decisions / numerical minimisation at float32: only "evaluates, stays 32-bit" (decision margins)
+            ctx.count("default-precision:values-not-compared(" + ("step-size policy" if nonbase else "generic solver") + ")")
+            continue
+        b = G.Built(recipe)
+        init = b.read()
+        skip = _skip_fields(recipe)
+        fld = G.states_close(init, rec["init"], rtol=F32_RTOL, skip=skip)
+        post_m = None
+        if fld is None:
+            post_m = G.state_from_wire(model.call("step", alg=b.model_alg, p=b.p, s=G.state_json(init), k=1, mode="impl")[0])
+            fld = G.states_close(post_m, rec["post"], rtol=F32_RTOL, skip=skip)
+            where = "after step()"
+        else:
+            where = "constructor state"
+        if fld is not None:
+            def oracle(c, b=b, rec=rec, recipe=recipe, where=where):
+                doc = b.read() if where == "constructor state" else documented_step(b)
+                got = rec["init"] if where == "constructor state" else rec["post"]
+                f2 = G.states_close(doc, got, rtol=F32_RTOL, skip=_skip_fields(recipe))
+                if f2 is None:
+                    return None
+                return {"class": type(b.solver).__name__, "recipe": recipe, "mode": "float32 / complex64 (jax_enable_x64 off)", "where": where,
+                        "field": f2, "documented_binary64": _fld(doc, f2), "returned_float32": _fld(got, f2)}
+
+            ctx.disagree(f"steps.{a}.default_precision.step", {"recipe": recipe, "mode": mode, "where": where},
+                         {fld: _fld(rec["init"] if post_m is None else rec["post"], fld)}, {fld: _fld(init if post_m is None else post_m, fld)}, oracle=oracle)
+            continue
+        # residual accessors / objective at the model's post-state
+        S = G.state_scale(post_m)
+        st = G.state_json(post_m if not isinstance(post_m.get("mem"), dict) else dict(post_m, mem=[0.0]))
+        for name, got in rec["acc"].items():
+            if name == "residual":
+                want = ("ok", float(post_m["fpr"]))
+            else:
+                want = _model_acc(model, a, b.p, st, name)
+            if want[0] != "ok":
+                continue
+            tol = 1e-3 * (1.0 + abs(want[1]) + 10.0 * S * (S if name == "objective" else 1.0))
+            ctx.count(f"default-precision-accessor:{a}.{name}")
+            if not (np.isfinite(got) and abs(got - want[1]) <= tol) and np.isfinite(want[1]):
+                fail = {"class": a, "accessor": name, "recipe": recipe, "mode": mode, "returned_float32": got, "model_binary64": want[1], "tolerance": tol}
+                ctx.disagree(f"steps.{a}.default_precision.{name}", {"recipe": recipe, "mode": mode}, got, want[1], oracle=lambda c, fail=fail: fail)
+
+
 def correspond(ctx, model):
     common.setup_scico()
     rng = ctx.rng
     check_constructors(ctx, model)
+    default_precision(ctx, model)
     for name, c in corpus_cases():
         run_case(ctx, model, c["recipe"], int(c.get("k", 3)), rng, tag="corpus")
         ctx.count(f"corpus:{name}")
